@@ -18,6 +18,7 @@ use util::Rng;
 
 fn run_line(prop: &str, args: &[&str]) -> String {
     match prop {
+        "C02" if args[0] == "hist" => sess::run12(args),
         "C02" => e2e02::run(args),
         "C03" => meta::run03(args),
         "C04" => meta::run04(args),
@@ -38,7 +39,12 @@ fn run_line(prop: &str, args: &[&str]) -> String {
 
 fn gen(prop: &str, rng: &mut Rng, n: usize) -> Vec<String> {
     match prop {
-        "C02" => e2e02::gen(rng, n),
+        "C02" => {
+            // end-to-end runs, then manager histories (the tie of the manager model that C02's T2/T3 are proved on)
+            let mut v = e2e02::gen(rng, n);
+            v.extend(sess::gen12(rng, n * 25));
+            v
+        }
         "C03" => meta::gen03(rng, n),
         "C04" => meta::gen04(rng, n),
         "C05" => mi::gen05(rng, n),
